@@ -111,3 +111,48 @@ func runPinned(r *harness.Run, prop string) {
 		}
 	}
 }
+
+// pinnedGoCallByParam: a protected CallByParam whose arguments do not fit into the registry returns
+// the error (it pushes the arguments before the protected region starts).
+func pinnedGoCallByParam(r *harness.Run) {
+	for _, n := range []int{100, 250, 1000, 6000} {
+		for _, opts := range []lua.Options{{RegistrySize: 256}, {}} {
+			L := lua.NewState(opts)
+			fn := L.NewFunction(func(L *lua.LState) int { L.Push(lua.LNumber(L.GetTop())); return 1 })
+			args := make([]lua.LValue, n)
+			for i := range args {
+				args[i] = lua.LNumber(i)
+			}
+			limit := 5120
+			if opts.RegistrySize != 0 {
+				limit = opts.RegistrySize
+			}
+			problem := ""
+			func() {
+				defer func() {
+					if rec := recover(); rec != nil {
+						problem = fmt.Sprintf("Go panic escaped the protected CallByParam: %v", rec)
+					}
+				}()
+				top := L.GetTop()
+				err := L.CallByParam(lua.P{Fn: fn, NRet: 1, Protect: true}, args...)
+				switch {
+				case err == nil && n+2 > limit:
+					problem = "no error although the arguments cannot fit"
+				case err == nil && (L.GetTop() != top+1 || L.Get(-1) != lua.LNumber(n)):
+					problem = fmt.Sprintf("wrong result: top %d, value %v", L.GetTop()-top, L.Get(-1))
+				case err != nil && n+16 < limit:
+					problem = "failed although the arguments fit: " + err.Error()
+				case err != nil && L.GetTop() != top:
+					problem = fmt.Sprintf("after the failure %d values are left on the caller's stack", L.GetTop()-top)
+				}
+			}()
+			sig := fmt.Sprintf("goapi/callbyparam-args-overflow/n=%d/registry=%d", n, limit)
+			r.Eval(sig, true, func() interface{} { return map[string]interface{}{"case": "protected CallByParam", "arguments": n, "registry": limit} })
+			if problem != "" {
+				r.Violation("goapi/callbyparam-args-overflow", fmt.Sprintf("%d arguments, registry %d: %s", n, limit, problem), map[string]interface{}{"arguments": n, "registry": limit})
+			}
+			L.Close()
+		}
+	}
+}
